@@ -37,18 +37,35 @@ def integrate_block(props, imports, header, body):
 
 
 def integrate_gentie(snippet="coq/Proofs/GenTie.props-snippet"):
-    """(re)place the translator-tie block at the END of every Props file the snippet has a section for"""
+    """(re)place the translator-tie block at the END of every Props file the snippet has a section for.  The snippet is ONE
+    cumulative file (later sections rely on the Require lines of earlier ones, and unqualified names resolve against what has
+    been imported so far), so the block written for a Props file replays, before each of its sections, every Require statement
+    the snippet has executed up to that point."""
     t = open(snippet).read()
     i = t.index("From Coq Require Import")
     j = t.index("Import ListNotations.")
     req = t[i:j].rstrip()
-    parts = re.split(r"\(\* ================= for Props/(C\d\d)\.v[^\n]*\n", t)
-    # parts = [pre, id1, text1, id2, text2, ...]; text1 starts inside the comment of its header
-    for k in range(1, len(parts), 2):
-        pid, txt = parts[k], parts[k + 1]
-        txt = txt[txt.index("*)") + 2:]            # drop the rest of the section's header comment
-        if k == 1:
-            txt = txt[txt.index("Local Open Scope nat_scope.") + len("Local Open Scope nat_scope."):]
+    heads = [(m.start(), m.end(), m.group(1)) for m in re.finditer(r"\(\* ================= for Props/(C\d\d)\.v[^\n]*\n", t)]
+    secs = []          # (pid, start of header, start of body, end)
+    for k, (a, b, pid) in enumerate(heads):
+        end = heads[k + 1][0] if k + 1 < len(heads) else len(t)
+        body = t.index("*)", b) + 2
+        if k == 0:
+            body = t.index("Local Open Scope nat_scope.", b) + len("Local Open Scope nat_scope.")
+        secs.append((pid, a, body, end))
+    REQ = r"^From (?:NV|Coq) Require Import .*?\.(?=\s)"
+    order = []
+    for pid, _, _, _ in secs:
+        if pid not in order:
+            order.append(pid)
+    for pid in order:
+        last = secs[0][2]
+        txt = ""
+        for spid, a, body, end in secs:
+            if spid != pid:
+                continue
+            txt += "\n".join(re.findall(REQ, t[last:body], re.S | re.M)) + "\n" + t[body:end]
+            last = end
         p = "coq/Props/%s.v" % pid
         s = open(p).read()
         if TIE_MARK in s:
